@@ -38,6 +38,11 @@ func genFraming(p *simkit.Plan, r *simkit.Rand, tier string) {
 		if r.Chance(1, 15) {
 			size = r.Range(60000, big) // beyond the 64 KiB buffers
 		}
+		if r.Chance(1, 30) && (c["frag"] == 0 || c["frag"] >= 1000) {
+			// Around the size beyond which the encoder stops keeping its
+			// buffer (1 MiB), followed by further messages.
+			size = (1 << 20) + r.Range(-3, 5000)
+		}
 		if c["frag"] > 0 && size > int(c["frag"])*3000 {
 			size = int(c["frag"]) * 3000
 		}
